@@ -37,6 +37,10 @@ func (self ValueAnyObject) Display() (string, *VmInterrupt) {
 }
 
 func (self ValueAnyObject) IsEqual(other Value) (bool, *VmInterrupt) {
+	// values of different kinds meet inside any-objects and `any` lists: they are not equal
+	if other.Kind() != self.Kind() {
+		return false, nil
+	}
 	otherObj := other.(ValueAnyObject)
 
 	// Both objects must have the same set of keys, otherwise a subset would be equal to its superset.
